@@ -10,9 +10,11 @@ import (
 	"encoding/json"
 	"fmt"
 	"os"
+	"reflect"
 	"strconv"
 	"strings"
 	"time"
+	"unsafe"
 )
 
 type verifAssumeFailed struct{}
@@ -175,4 +177,16 @@ func verifRunUntilBlocked(f func()) bool {
 	case <-time.After(300 * time.Millisecond):
 		return true
 	}
+}
+
+// verifSetField stores v into the field of *ptr reached by the dotted path, even
+// when it is unexported or belongs to another package. Natively this goes through
+// reflect + unsafe.
+func verifSetField(ptr interface{}, path string, v interface{}) {
+	cur := reflect.ValueOf(ptr).Elem()
+	for _, name := range strings.Split(path, ".") {
+		cur = cur.FieldByName(name)
+	}
+	cur = reflect.NewAt(cur.Type(), unsafe.Pointer(cur.UnsafeAddr())).Elem()
+	cur.Set(reflect.ValueOf(v))
 }
